@@ -164,7 +164,11 @@ def check_timedelta(ctx, t: int, bt):
     if not ok or total != t * 10**24 // T64:
         ctx.violation(what="timedelta fields", ticks=t, observed=str(f),
                       required=f"normalized fields adding up to floor(t*10^24/2^64) = {t * 10**24 // T64}")
-    s = str(x)
+    so = outcome(str, x)
+    if so[0] != "ok":
+        ctx.violation(what="timedelta str raised", ticks=t, fields=str(f), observed=show(so)[:160], required="normal-form [D day[s], ]H:MM:SS[.f] text")
+        return
+    s = so[1]
     v = td_text_value(s)
     exact = Fraction(t * 10**18, T64)
     if v is None or abs(v - exact) > 1:
@@ -315,6 +319,13 @@ def run(ctx):
     tds = [t for t in edge_ticks() if I128_MIN <= t <= I128_MAX]
     tds += [rand_ticks(rng, True) for _ in range(2000 if ctx.quick else 100000)]
     tds += [w * T64 + T64 - k for w in (0, 1, -1, 59, 3599, 86399, -86400, 1 << 40) for k in range(1, 14)]
+    # durations around the limits of OTHER duration types (±999999999 / ±10^9 days of datetime.timedelta and hightime, their second and
+    # microsecond edges), any fraction, both signs: the text is the hand-made normal form there as everywhere
+    for days in (999_999_999, 1_000_000_000, 999_999_998, 10 ** 9 + 1, 10 ** 10, 106_751_991_167_300):
+        for sgn in (1, -1):
+            for off in (0, 1, -1, 86399, -86399, 43200, -43200, 86400, -86400):
+                for frac in (0, 1, T64 // 2, T64 - 1, T64 - 9, rng.randrange(T64)):
+                    tds.append((sgn * days * 86400 + off) * T64 + frac)
     tds = [max(I128_MIN, min(I128_MAX, t)) for t in tds]
     for t in tds:
         check_timedelta(ctx, t, bt)
